@@ -17,7 +17,7 @@ use std::{
 use subjects::{derived::CA, vt::VT, Subject};
 
 /// Number of `impl .. EncodeLike` lines this table was written against (completeness tripwire).
-pub const IMPL_LINES_AT_PINNED_COMMIT: usize = 57;
+pub const IMPL_LINES_AT_PINNED_COMMIT: usize = 63;
 
 fn check_pair<A, B>(family: &str, a: &A, bv: &Value, bytes: bool) -> Result<(), String>
 where
